@@ -4,7 +4,7 @@
    the translator) instantiates them on the tables regenerated from $VERIF_REPO/imports and on go/types' view of the
    same packages, discharging the checker hypotheses by vm_compute: those are the theorems named in DESIGN §5. *)
 From Coq Require Import List NArith ZArith Bool.
-From Verif Require Import Common.GoStr C32.Model C31.Model C31.Proof.
+From Verif Require Import Common.GoStr C31.Untyped C31.Model C31.Proof.
 Import ListNotations.
 Open Scope N_scope.
 
